@@ -27,6 +27,25 @@ pub const ALL_SHAPES: [&str; 2] = ["alias-on-cycle", "uri-kinded-declaration-on-
 ///   (the placeholder is memoised as the alias' value);
 /// * uri-kinded-declaration-on-cycle: a declaration of kind URI lies on a declaration cycle (re-entering it yields
 ///   the placeholder where a URI is required).
+/// For mutants, whose binding targets may be stale (names re-bind when the text is parsed), the cycle structure of
+/// the abstract syntax says nothing: a shape is assumed present whenever its ingredient exists at all (some
+/// declaration that is a bare alias / that is URI-kinded), absent otherwise.
+pub fn shapes_possible(p: &Program) -> Vec<&'static str> {
+    let mut out = Vec::new();
+    if p.decls.iter().any(|d| matches!(d.rhs.peel(), E::Var { .. })) {
+        out.push("alias-on-cycle");
+    }
+    let uri_headed = |e: &E| match e.peel() {
+        E::UriT { .. } => true,
+        E::App { f, .. } => matches!(f.peel(), E::Var { target: crate::gen::ast::Target::Builtin(b), .. } if b == "concat"),
+        _ => false,
+    };
+    if p.decls.iter().any(|d| d.ty == Ty::Uri || matches!(&d.ty, Ty::Fun(_, r) if **r == Ty::Uri) || uri_headed(&d.rhs)) {
+        out.push("uri-kinded-declaration-on-cycle");
+    }
+    out
+}
+
 pub fn shapes_of(p: &Program) -> Vec<&'static str> {
     let n = p.decls.len();
     let adj: Vec<Vec<usize>> = p.decls.iter().map(|d| Program::mentions(&d.rhs)).collect();
@@ -123,7 +142,7 @@ pub fn explore_case(seed: u64, salt: &str, idx: u64) -> ExploreCase {
             }
             ExploreCase {
                 cross_module_app: has_cross_module_application(&p),
-                shapes: shapes_of(&p),
+                shapes: shapes_possible(&p),
                 sources: sources_of(&print_program_mutant(&p)),
                 origin: format!("ast-mutant:{}", what.join("+")),
             }
